@@ -29,6 +29,11 @@ type Obl struct {
 	Known  string
 	Prefer string // preferred solver (contract option solver=...)
 	Vars   map[string]string // model variable names of interest: source name -> smt term
+	// NAsserts: how many assumed facts existed when the obligation was generated. Only
+	// those may be used to discharge it: a fact assumed later in the execution order (the
+	// invariant assumed at a loop head, the postcondition of a later call) must not help
+	// to prove an earlier obligation - that would be circular.
+	NAsserts int
 }
 
 type closureInfo struct {
@@ -87,6 +92,8 @@ type Ctx struct {
 	definesUsed map[string]bool
 	specFacts   map[string]bool
 	gcOrder     int
+	curBlk      *ssa.BasicBlock
+	pathFact    map[int]bool
 	stableFV  map[string]bool
 	provIDs   map[string]int
 	chanLinksUsed map[string]bool
@@ -100,6 +107,19 @@ func (c *Ctx) assumeHere(fact string) {
 		return
 	}
 	c.asserts = append(c.asserts, sImp(c.curReach, fact))
+	c.markPathFact()
+}
+
+// markPathFact: the fact just appended to c.asserts was assumed at a program point (callee
+// postcondition, loop invariant at a head, branch knowledge). Such facts may only be used
+// by obligations generated after them. Facts appended directly are global truths
+// (distinctness of allocations, contents of literals, type invariants of fresh symbols,
+// definitions of spec terms) and are available everywhere.
+func (c *Ctx) markPathFact() {
+	if c.pathFact == nil {
+		c.pathFact = map[int]bool{}
+	}
+	c.pathFact[len(c.asserts)-1] = true
 }
 
 func (c *Ctx) addObl(kind, name, cond, src string) *Obl {
@@ -111,7 +131,7 @@ func (c *Ctx) addObl(kind, name, cond, src string) *Obl {
 	if n := c.oblSeq[name]; n > 1 {
 		name = fmt.Sprintf("%s#%d", name, n)
 	}
-	o := &Obl{Name: name, Kind: kind, Fn: c.fnName(), Reach: c.curReach, Cond: cond, Src: src, Props: c.props}
+	o := &Obl{Name: name, Kind: kind, Fn: c.fnName(), Reach: c.curReach, Cond: cond, Src: src, Props: c.props, NAsserts: len(c.asserts)}
 	if c.con != nil {
 		o.Prefer = c.con.Opts["solver"]
 	}
@@ -842,6 +862,7 @@ func (c *Ctx) constVal(x *ssa.Const) *Val {
 // ---------------------------------------------------------------- blocks
 
 func (c *Ctx) execBlock(b *ssa.BasicBlock, st *State, edgeCond map[edge]string, heads map[*ssa.BasicBlock]*loopInfo, reach map[*ssa.BasicBlock]string) {
+	c.curBlk = b
 	for _, in := range b.Instrs {
 		if c.curReach == "false" {
 			for _, s := range b.Succs {
